@@ -322,6 +322,14 @@ def selection(env):
         env.holds(f'{cls.__name__}_no_kernel_no_corrector_is_Trivial', isinstance(o3.corrector[0], optm.Trivial))
 
 
+# where the selected correctors are USED: the step functions apply corrector k to residual k, and a single corrector (one kernel for a
+# model with several outputs) to every residual - the step contract of c07_step.py, discharged in this check too
+from contracts import c07_step as _c07
+for (_cls, _single), _fn in _c07.CORRECTOR_CONTRACTS.items():
+    obligation(f'C09.step.corrector_per_residual.{_cls}' + ('.single' if _single else ''), functions=[f'pypose.optim.optimizer:{_cls}.step'], max_paths=16,
+               note='same contract function as C07.corrector_before_weight.*')(_fn)
+
+
 @obligation('C09.canary.hessian_without_curvature_term', functions=[f'{COR}:Triggs.forward'], canary=True, max_paths=16)
 def canary(env):
     cor = env.load(COR); T = env.T
@@ -375,6 +383,25 @@ def real_kernels(rng, tier):
                 if not torch.allclose(out, ref, rtol=1e-7, atol=1e-9):
                     fails.append(dict(clause='JtR_is_robust_gradient', signature=f'{cname}/{name}', err=float((out - ref).abs().max())))
         if t < 1: samples.append(dict(n=n, d=dd, k=k))
+    # "raises on negative input" in float arithmetic: a negative input however small - also one that an intermediate like x / delta^2 + 1
+    # would round away - is rejected, by every kernel, in both dtypes, alone or next to valid entries
+    for name in ('Huber', 'PseudoHuber', 'Cauchy', 'SoftLOne', 'Arctan', 'Tolerant', 'Scale'):
+        for dt_, tiny_ in ((torch.float64, (-1e-20, -1e-30, -1e-300)), (torch.float32, (-1e-10, -1e-20, -1e-37))):
+            for delta in (1.0, 100.0, 0.01):
+                try:
+                    ker = pp.optim.kernel.Tolerant(delta, -delta) if name == 'Tolerant' else getattr(pp.optim.kernel, name)(delta)
+                except AssertionError:
+                    continue            # a parameter value this kernel does not admit (Scale: delta in (0, 1])
+                for v in tiny_:
+                    for x_ in (torch.tensor([v], dtype=dt_), torch.tensor([1.0, v, 2.0], dtype=dt_)):
+                        evals += 1
+                        try:
+                            ker(x_)
+                            fails.append(dict(clause='negative_input_rejected_float', signature=f'{name}/{str(dt_).split(".")[-1]}', delta=delta, value=v))
+                        except AssertionError:
+                            pass
+                        except Exception as e:
+                            fails.append(dict(clause='negative_input_rejected_float', signature=f'{name}/{str(dt_).split(".")[-1]}', delta=delta, value=v, error=f'{type(e).__name__}: {e}'[:100]))
     uniq = {}
     for f in fails: uniq.setdefault((f['clause'], f['signature']), f)
     return dict(evaluations=evals, distinct_nontrivial=evals, rule='random residuals with one exactly-zero row (and one row exactly at the Huber threshold), 7 kernels x 2 correctors; all distinct',
